@@ -96,8 +96,21 @@ pub fn build_abiding(g: &Genome) -> Built {
             }
         }
         if consumer == Consumer::ErrOrObs {
-            // error handlers and observers only borrow infallible singletons
-            return if t.life == Life::Singleton { Some(Mode::Ref) } else { None };
+            // error handlers and observers only borrow; they may not (transitively) need a
+            // constructor that can fail at request time (singletons are built before serving,
+            // a fallible singleton constructor is fine)
+            fn can_fail_at_request_time(j: usize, types: &[TypeSpec]) -> bool {
+                let t = &types[j];
+                if t.life == Life::Singleton {
+                    return false;
+                }
+                t.fallible.is_some() || t.inputs.iter().any(|(i, _)| can_fail_at_request_time(*i, types))
+            }
+            if t.life == Life::Singleton {
+                return Some(Mode::Ref);
+            }
+            let borrowable = matches!(discs[j], Disc::BorrowOnly | Disc::Copy | Disc::CloneIfNecessary | Disc::Fresh);
+            return if borrowable && !can_fail_at_request_time(j, types) { Some(Mode::Ref) } else { None };
         }
         match discs[j] {
             Disc::BorrowOnly => Some(Mode::Ref),
@@ -138,7 +151,8 @@ pub fn build_abiding(g: &Genome) -> Built {
                 used_by_non_handler[j] = true;
             }
         }
-        let fallible = if tg.fallible && life != Life::Singleton { Some(i % n_errs) } else { None };
+        // a singleton whose constructor returns a Result fails (if ever) in ApplicationState::new; a third of the fallible genes keep it
+        let fallible = if tg.fallible && (life != Life::Singleton || tg.disc % 3 == 1) { Some(i % n_errs) } else { None };
         types.push(TypeSpec {
             life,
             is_clone: matches!(disc, Disc::CloneIfNecessary) || (disc == Disc::Fresh && tg.disc % 2 == 0),
@@ -156,6 +170,9 @@ pub fn build_abiding(g: &Genome) -> Built {
             variants: 1,
             send_sync: true,
             prebuilt: false,
+            attr_life: None,
+            attr_clone: None,
+            allow_unused: false,
         });
         discs.push(disc);
         claimed.push(false);
@@ -173,6 +190,9 @@ pub fn build_abiding(g: &Genome) -> Built {
             variants: 1,
             send_sync: true,
             prebuilt: false,
+            attr_life: None,
+            attr_clone: None,
+            allow_unused: false,
         });
         discs.push(Disc::BorrowOnly);
         claimed.push(false);
@@ -181,14 +201,14 @@ pub fn build_abiding(g: &Genome) -> Built {
     let n = types.len();
 
     let mut comps: Vec<CompSpec> = vec![];
-    let mut comp_inputs = |cg: &CompGene, consumer: Consumer, types: &[TypeSpec], claimed: &mut Vec<bool>, ubnh: &mut Vec<bool>| {
+    let comp_inputs = |cg: &CompGene, consumer: Consumer, types: &[TypeSpec], discs: &[Disc], claimed: &mut Vec<bool>, ubnh: &mut Vec<bool>| {
         let mut inputs = vec![];
         for (raw, m) in cg.inputs.iter().take(3) {
             let j = pick(*raw, n);
             if inputs.iter().any(|(t, _)| *t == j) {
                 continue;
             }
-            if let Some(mode) = mode_for(j, m % 2 == 1, consumer, types, &discs, claimed) {
+            if let Some(mode) = mode_for(j, m % 2 == 1, consumer, types, discs, claimed) {
                 inputs.push((j, mode));
                 if consumer != Consumer::Handler {
                     ubnh[j] = true;
@@ -197,20 +217,27 @@ pub fn build_abiding(g: &Genome) -> Built {
         }
         inputs
     };
+    // framework-provided values (request head, raw path parameters, matched pattern, connection info, raw body) by reference
+    let fw_of = |cg: &CompGene| -> Vec<u8> {
+        let mut v: Vec<u8> = cg.inputs.iter().filter(|(_, m)| m % 5 == 0).map(|(raw, _)| (*raw % 5) as u8).collect();
+        v.sort();
+        v.dedup();
+        v
+    };
     // ---- middlewares
     let mut mw_idx = vec![];
     for cg in g.mws.iter().take(6) {
         let kind = [CompKind::Pre, CompKind::Post, CompKind::Wrap][cg.kind as usize % 3].clone();
-        let inputs = comp_inputs(cg, Consumer::Middleware, &types, &mut claimed, &mut used_by_non_handler);
+        let inputs = comp_inputs(cg, Consumer::Middleware, &types, &discs, &mut claimed, &mut used_by_non_handler);
         let fallible = if cg.fallible { Some(cg.kind as usize % n_errs) } else { None };
         let is_async = cg.is_async || kind == CompKind::Wrap;
         mw_idx.push(comps.len());
-        comps.push(CompSpec { kind, inputs, fallible, is_async, route: None });
+        comps.push(CompSpec { kind, inputs, fallible, is_async, route: None, fw: fw_of(cg) });
     }
     // ---- handlers
     let mut h_idx = vec![];
     for (hi, cg) in g.handlers.iter().take(4).enumerate() {
-        let inputs = comp_inputs(cg, Consumer::Handler, &types, &mut claimed, &mut used_by_non_handler);
+        let inputs = comp_inputs(cg, Consumer::Handler, &types, &discs, &mut claimed, &mut used_by_non_handler);
         let fallible = if cg.fallible { Some(cg.kind as usize % n_errs) } else { None };
         let methods = match cg.kind % 5 {
             0 | 1 => vec!["GET".to_string()],
@@ -224,7 +251,8 @@ pub fn build_abiding(g: &Genome) -> Built {
             inputs,
             fallible,
             is_async: cg.is_async,
-            route: Some(RouteSpec { methods, path: format!("/h{hi}"), path_param_fields: vec![] }),
+            route: Some(RouteSpec { methods, path: format!("/h{hi}"), path_param_fields: vec![], bulk: (cg.kind / 5) % 2 == 0 }),
+            fw: fw_of(cg),
         });
     }
     if h_idx.is_empty() {
@@ -234,26 +262,68 @@ pub fn build_abiding(g: &Genome) -> Built {
             inputs: vec![],
             fallible: None,
             is_async: false,
-            route: Some(RouteSpec { methods: vec!["GET".into()], path: "/h0".into(), path_param_fields: vec![] }),
+            route: Some(RouteSpec { methods: vec!["GET".into()], path: "/h0".into(), path_param_fields: vec![], bulk: false }),
+            fw: vec![],
         });
+    }
+    // ---- "hot" clone-if-necessary value: in a third of the applications every middleware and
+    // handler takes the same clone-if-necessary request-scoped value, by value or by reference as
+    // their genes say (long move/borrow alternations inside one stage and across stages)
+    if g.fallback_handler_err {
+        let mut hot = (0..n).find(|t| discs[*t] == Disc::CloneIfNecessary && types[*t].life == Life::Request);
+        if hot.is_none() {
+            // promote a borrow-only request-scoped type (its existing users only borrow it)
+            if let Some(t) = (0..n).find(|t| discs[*t] == Disc::BorrowOnly && types[*t].life == Life::Request) {
+                discs[t] = Disc::CloneIfNecessary;
+                types[t].is_clone = true;
+                types[t].clone_if_necessary = Some(true);
+                hot = Some(t);
+            }
+        }
+        if let Some(hot) = hot {
+            for (n_c, c) in comps.iter_mut().enumerate() {
+                if matches!(c.kind, CompKind::Pre | CompKind::Post | CompKind::Wrap | CompKind::Handler) && !c.inputs.iter().any(|(t, _)| *t == hot) {
+                    // half of the time strictly alternating, otherwise as the gene bits say
+                    let by_value = if g.n_errs % 2 == 0 { (n_c + (g.n_errs as usize >> 1)) % 2 == 0 } else { (g.n_errs as usize >> (n_c % 7)) & 1 == 1 };
+                    c.inputs.push((hot, if by_value { Mode::Move } else { Mode::Ref }));
+                    if c.kind != CompKind::Handler {
+                        used_by_non_handler[hot] = true;
+                    }
+                }
+            }
+        }
     }
     // ---- observers
     let mut o_idx = vec![];
     for cg in g.observers.iter().take(3) {
-        let inputs = comp_inputs(cg, Consumer::ErrOrObs, &types, &mut claimed, &mut used_by_non_handler);
+        let inputs = comp_inputs(cg, Consumer::ErrOrObs, &types, &discs, &mut claimed, &mut used_by_non_handler);
         o_idx.push(comps.len());
-        comps.push(CompSpec { kind: CompKind::Observer, inputs, fallible: None, is_async: cg.is_async, route: None });
+        comps.push(CompSpec { kind: CompKind::Observer, inputs, fallible: None, is_async: cg.is_async, route: None, fw: vec![] });
     }
     // ---- one error handler per error type (registered at the root)
     let mut eh_idx = vec![];
     for e in 0..n_errs {
-        let inputs = if types[0].life == Life::Singleton && e % 2 == 0 { vec![(0usize, Mode::Ref)] } else { vec![] };
-        if !inputs.is_empty() {
-            used_by_non_handler[0] = true;
-        }
+        // error handlers borrow like observers do (never something that can fail at request time)
+        let inputs = match g.observers.get(e) {
+            Some(cg) if e % 2 == 1 => comp_inputs(cg, Consumer::ErrOrObs, &types, &discs, &mut claimed, &mut used_by_non_handler),
+            _ => {
+                if types[0].life == Life::Singleton && e % 2 == 0 {
+                    used_by_non_handler[0] = true;
+                    vec![(0usize, Mode::Ref)]
+                } else {
+                    vec![]
+                }
+            }
+        };
         eh_idx.push(comps.len());
-        comps.push(CompSpec { kind: CompKind::ErrHandler { err: e, default: false }, inputs, fallible: None, is_async: e % 2 == 1, route: None });
+        comps.push(CompSpec { kind: CompKind::ErrHandler { err: e, default: false }, inputs, fallible: None, is_async: e % 2 == 1, route: None, fw: vec![] });
     }
+    // ---- an error handler for an error type that nothing returns: registered in some *nested*
+    // blueprints only, so that those blueprints have error handlers of their own while every real
+    // error is still handled by the handlers of the root blueprint
+    let extra_eh = comps.len();
+    comps.push(CompSpec { kind: CompKind::ErrHandler { err: n_errs, default: false }, inputs: vec![], fallible: None, is_async: false, route: None, fw: vec![] });
+    let n_errs = n_errs + 1;
     // ---- overridable types: request-scoped/transient, consumed by handlers only, with no dependants
     let overridable: Vec<usize> = (0..n)
         .filter(|t| {
@@ -294,6 +364,7 @@ pub fn build_abiding(g: &Genome) -> Built {
         placed: &mut [bool],
         overridable: &[usize],
         nest_counter: &mut usize,
+        extra_eh: usize,
     ) {
         for gme in genes.iter().take(8) {
             match gme {
@@ -303,11 +374,9 @@ pub fn build_abiding(g: &Genome) -> Built {
                     }
                 }
                 LayoutGene::Obs(r) => {
-                    // known finding (C09/C02, panic at call_graph/codegen.rs:242): an observer
-                    // registered in a *nested* blueprint while a parent-scope middleware shares a
-                    // fallible request-scoped value with the nested route crashes the compiler.
-                    // Observers are therefore registered in the root blueprint only.
-                    if !o_idx.is_empty() && depth == 0 {
+                    // observers may sit at any nesting level (a compiler crash that used to be
+                    // reached this way, call_graph/codegen.rs:242, is repaired: see known_findings.json)
+                    if !o_idx.is_empty() {
                         out.push(Reg::Comp { idx: o_idx[pick(*r, o_idx.len())] });
                     }
                 }
@@ -326,7 +395,10 @@ pub fn build_abiding(g: &Genome) -> Built {
                     if let (Some(raw), false) = (override_ctor, overridable.is_empty()) {
                         regs.push(Reg::Ctor { ty: overridable[pick(*raw, overridable.len())], variant: 1 });
                     }
-                    layout(inner, depth + 1, &mut regs, mw_idx, o_idx, h_idx, placed, overridable, nest_counter);
+                    if override_ctor.map(|r| r % 2 == 0).unwrap_or(inner.len() % 2 == 0) {
+                        regs.push(Reg::Comp { idx: extra_eh });
+                    }
+                    layout(inner, depth + 1, &mut regs, mw_idx, o_idx, h_idx, placed, overridable, nest_counter, extra_eh);
                     *nest_counter += 1;
                     let prefix = if *with_prefix { Some(format!("/n{}", *nest_counter)) } else { None };
                     out.push(Reg::Nest { prefix, domain: None, bp: regs });
@@ -334,13 +406,12 @@ pub fn build_abiding(g: &Genome) -> Built {
             }
         }
     }
-    layout(&g.layout, 0, &mut bp, &mw_idx, &o_idx, &h_idx, &mut placed, &overridable, &mut nest_counter);
+    layout(&g.layout, 0, &mut bp, &mw_idx, &o_idx, &h_idx, &mut placed, &overridable, &mut nest_counter, extra_eh);
     for (h, p) in placed.iter().enumerate() {
         if !p {
             bp.push(Reg::Comp { idx: h_idx[h] });
         }
     }
-    let _ = g.fallback_handler_err;
     Built { spec: AppSpec { types, n_errs, comps, bp, note: "abiding".into() }, discs }
 }
 
@@ -361,7 +432,7 @@ fn comp_gene() -> impl Strategy<Value = CompGene> {
 fn layout_gene() -> BoxedStrategy<LayoutGene> {
     let leaf = prop_oneof![
         4 => any::<u16>().prop_map(LayoutGene::Mw),
-        1 => any::<u16>().prop_map(LayoutGene::Obs),
+        2 => any::<u16>().prop_map(LayoutGene::Obs),
         3 => any::<u16>().prop_map(LayoutGene::Route),
     ];
     leaf.prop_recursive(3, 24, 6, |inner| {
@@ -435,6 +506,8 @@ const METHOD_SETS: &[&[&str]] = &[
     &["OPTIONS", "GET"],
     &["FOO"],
     &["GET", "BAR"],
+    &["GeT"],
+    &["purge", "POST"],
     &[],    // any standard method
     &["*"], // any method, custom ones included
 ];
@@ -534,6 +607,7 @@ pub fn build_routing(g: &RoutingGenome, k: usize) -> AppSpec {
     fn scope(
         sg: &ScopeGene,
         own_prefix: bool,
+        anc_ok: bool,
         depth: usize,
         prefix: &str,
         seg_depth: usize,
@@ -579,15 +653,19 @@ pub fn build_routing(g: &RoutingGenome, k: usize) -> AppSpec {
                 inputs: vec![],
                 fallible: None,
                 is_async: rg.methods % 2 == 0,
-                route: Some(RouteSpec { methods, path, path_param_fields: vec![] }),
+                route: Some(RouteSpec { methods, path, path_param_fields: vec![], bulk: false }),
+                fw: if rg.methods % 7 == 3 { vec![rg.methods / 7 % 5] } else { vec![] },
             });
         }
-        // a fallback in a blueprint nested *without* its own prefix is only documented for method
-        // misses on its own routes; what it does for unmatched paths below an inherited prefix is
-        // not pinned down: fallbacks are generated for the root and for prefixed blueprints only
-        if sg.fallback && own_prefix {
+        // a fallback in a blueprint nested *without* its own prefix is documented for method
+        // misses on its own routes. For unmatched paths below an inherited prefix it competes with
+        // the fallback of the prefixed ancestor (and pavexc reports an ambiguity when that ancestor
+        // has none): it is generated only when the nearest prefixed ancestor has its own fallback
+        // (registered first, which then owns the prefix)
+        if sg.fallback && (own_prefix || anc_ok) {
             out.push(Reg::Comp { idx: comps.len() });
-            comps.push(CompSpec { kind: CompKind::Fallback, inputs: vec![], fallible: None, is_async: false, route: None });
+            // (framework-provided inputs: often the fallback is the only component asking for one)
+            comps.push(CompSpec { kind: CompKind::Fallback, inputs: vec![], fallible: None, is_async: false, route: None, fw: if sg.prefix_kind % 2 == 0 { vec![sg.prefix_kind / 2 % 5] } else { vec![] } });
         }
         if depth < 3 {
             for ch in sg.children.iter().take(3) {
@@ -599,7 +677,8 @@ pub fn build_routing(g: &RoutingGenome, k: usize) -> AppSpec {
                 };
                 let np = format!("{prefix}{}", p.clone().unwrap_or_default());
                 let mut regs = vec![];
-                scope(ch, p.is_some(), depth + 1, &np, seg_depth + extra_depth + 4, comps, taken, nest_counter, &mut regs);
+                let child_anc_ok = if own_prefix { sg.fallback } else { anc_ok }; // (the application's root is itself nested under `/s<k>` in a round)
+                scope(ch, p.is_some(), child_anc_ok, depth + 1, &np, seg_depth + extra_depth + 4, comps, taken, nest_counter, &mut regs);
                 out.push(Reg::Nest { prefix: p, domain: None, bp: regs });
             }
         }
@@ -607,10 +686,10 @@ pub fn build_routing(g: &RoutingGenome, k: usize) -> AppSpec {
 
     let mut bp: Vec<Reg> = vec![];
     if domains.is_empty() {
-        scope(&g.root, true, 0, "", 0, &mut comps, &mut taken, &mut nest_counter, &mut bp);
+        scope(&g.root, true, true, 0, "", 0, &mut comps, &mut taken, &mut nest_counter, &mut bp);
         if g.root_fallback && !g.root.fallback {
             bp.push(Reg::Comp { idx: comps.len() });
-            comps.push(CompSpec { kind: CompKind::Fallback, inputs: vec![], fallible: None, is_async: false, route: None });
+            comps.push(CompSpec { kind: CompKind::Fallback, inputs: vec![], fallible: None, is_async: false, route: None, fw: vec![] });
         }
     } else {
         // all-or-nothing: every route lives under a guarded top-level nest; only a fallback at the root
@@ -623,7 +702,7 @@ pub fn build_routing(g: &RoutingGenome, k: usize) -> AppSpec {
             // each domain has its own path namespace
             let mut taken_d = Default::default();
             let leaf = ScopeGene { routes: sg.routes.clone(), fallback: sg.fallback, prefix_kind: 0, children: if i == 0 { sg.children.iter().take(1).cloned().collect() } else { vec![] } };
-            scope(&leaf, true, 1, "", 0, &mut comps, &mut taken_d, &mut nest_counter, &mut regs);
+            scope(&leaf, true, false, 1, "", 0, &mut comps, &mut taken_d, &mut nest_counter, &mut regs);
             fn has_handler(regs: &[Reg], comps: &[CompSpec]) -> bool {
                 regs.iter().any(|r| match r {
                     Reg::Comp { idx } => comps[*idx].kind == CompKind::Handler,
@@ -642,14 +721,15 @@ pub fn build_routing(g: &RoutingGenome, k: usize) -> AppSpec {
                     inputs: vec![],
                     fallible: None,
                     is_async: false,
-                    route: Some(RouteSpec { methods: vec!["GET".into()], path: format!("/dz{i}"), path_param_fields: vec![] }),
+                    route: Some(RouteSpec { methods: vec!["GET".into()], path: format!("/dz{i}"), path_param_fields: vec![], bulk: false }),
+                    fw: vec![],
                 });
             }
             bp.push(Reg::Nest { prefix: None, domain: Some(d.clone()), bp: regs });
         }
         if g.root_fallback {
             bp.push(Reg::Comp { idx: comps.len() });
-            comps.push(CompSpec { kind: CompKind::Fallback, inputs: vec![], fallible: None, is_async: false, route: None });
+            comps.push(CompSpec { kind: CompKind::Fallback, inputs: vec![], fallible: None, is_async: false, route: None, fw: vec![] });
         }
     }
     if !comps.iter().any(|c| c.kind == CompKind::Handler) {
@@ -659,7 +739,8 @@ pub fn build_routing(g: &RoutingGenome, k: usize) -> AppSpec {
             inputs: vec![],
             fallible: None,
             is_async: false,
-            route: Some(RouteSpec { methods: vec!["GET".into()], path: "/".into(), path_param_fields: vec![] }),
+            route: Some(RouteSpec { methods: vec!["GET".into()], path: "/".into(), path_param_fields: vec![], bulk: false }),
+            fw: vec![],
         });
     }
     let mut spec = AppSpec { types: vec![], n_errs: 0, comps, bp, note: if domains.is_empty() { "routing".into() } else { "routing+domains".into() } };
@@ -1104,4 +1185,186 @@ pub fn plant(base: &AppSpec, rule: usize, raw: u16) -> Option<Planted> {
     }
     spec.note = format!("planted {name}: {what}");
     Some(Planted { spec, what: format!("{name}: {what}"), nontrivial })
+}
+
+// ------------------------------------------------------------------------------------------
+// C19(b): the same application, with some properties written differently: the attribute says one
+// thing and the registration overrides it with the effective value; unused constructors with
+// and without `allow(unused)`
+// ------------------------------------------------------------------------------------------
+
+pub struct Styled {
+    pub spec: AppSpec,
+    /// (type index, allow_unused) of the extra constructors nobody needs
+    pub unused: Vec<(usize, bool)>,
+    pub n_overrides: usize,
+}
+
+pub fn apply_attr_styles(base: &AppSpec, raw: u64) -> Styled {
+    let mut spec = base.clone();
+    let mut s = raw | 1;
+    let mut next = move || {
+        s ^= s << 13;
+        s ^= s >> 7;
+        s ^= s << 17;
+        (s >> 11) as usize
+    };
+    let mut n_overrides = 0;
+    for t in spec.types.iter_mut() {
+        if t.prebuilt {
+            continue;
+        }
+        if next() % 3 == 0 {
+            let others: Vec<Life> = [Life::Singleton, Life::Request, Life::Transient].into_iter().filter(|l| *l != t.life).collect();
+            t.attr_life = Some(others[next() % 2]);
+            n_overrides += 1;
+        }
+        if t.life != Life::Transient && t.clone_if_necessary.is_some() && next() % 3 == 0 {
+            let mut options = vec!["never_clone", ""];
+            if t.is_clone {
+                options.push("clone_if_necessary");
+            }
+            t.attr_clone = Some(options[next() % options.len()].to_string());
+            n_overrides += 1;
+        }
+    }
+    let mut unused = vec![];
+    for _ in 0..(1 + next() % 2) {
+        let allow = next() % 2 == 0;
+        let i = spec.types.len();
+        spec.types.push(TypeSpec {
+            life: if next() % 2 == 0 { Life::Request } else { Life::Singleton },
+            is_clone: false,
+            is_copy: false,
+            clone_if_necessary: None,
+            inputs: vec![],
+            fallible: None,
+            is_async: false,
+            variants: 1,
+            send_sync: true,
+            prebuilt: false,
+            attr_life: None,
+            attr_clone: None,
+            allow_unused: allow,
+        });
+        spec.bp.insert(0, Reg::Ctor { ty: i, variant: 0 });
+        unused.push((i, allow));
+    }
+    spec.note = format!("{} + attribute styles ({n_overrides} overridden at registration, {} unused constructors)", base.note, unused.len());
+    Styled { spec, unused, n_overrides }
+}
+
+// ------------------------------------------------------------------------------------------
+// Stage stress: many middlewares of one stage (and across stages) sharing the same values with
+// every by-value / by-reference pattern. Everything here is allowed by the documented rules: the
+// shared values are clone-if-necessary (or Copy), so any number of consumers may take them.
+// ------------------------------------------------------------------------------------------
+
+pub fn build_stage_stress(raw: u64) -> AppSpec {
+    let mut s = raw | 1;
+    let mut next = move || {
+        s ^= s << 13;
+        s ^= s >> 7;
+        s ^= s << 17;
+        (s >> 9) as usize
+    };
+    let mk_type = |life: Life, copy: bool| TypeSpec {
+        life,
+        is_clone: !copy,
+        is_copy: copy,
+        clone_if_necessary: if copy { None } else { Some(true) },
+        inputs: vec![],
+        fallible: None,
+        is_async: false,
+        variants: 1,
+        send_sync: true,
+        prebuilt: false,
+        attr_life: None,
+        attr_clone: None,
+        allow_unused: false,
+    };
+    // T0: request-scoped clone-if-necessary; T1: singleton clone-if-necessary; T2: request-scoped Copy; T3: transient built from &T0
+    let mut types = vec![mk_type(Life::Request, false), mk_type(Life::Singleton, false), mk_type(Life::Request, true)];
+    let mut t3 = mk_type(Life::Transient, false);
+    t3.clone_if_necessary = None;
+    t3.inputs = vec![(0, Mode::Ref)];
+    types.push(t3);
+    // T4: request-scoped, never cloned, built from a transient taken by value: only ever borrowed
+    let mut t4 = mk_type(Life::Request, false);
+    t4.is_clone = false;
+    t4.clone_if_necessary = None;
+    t4.inputs = vec![(3, Mode::Move)];
+    types.push(t4);
+    let mut comps: Vec<CompSpec> = vec![];
+    let mut bp: Vec<Reg> = (0..types.len()).map(|t| Reg::Ctor { ty: t, variant: 0 }).collect();
+    // the error path shares values with the happy path: an error handler and an observer that borrow
+    let with_errors = next() % 2 == 0;
+    if with_errors {
+        let eh_inputs = if next() % 2 == 0 { vec![(4, Mode::Ref)] } else { vec![(1, Mode::Ref)] };
+        bp.push(Reg::Comp { idx: comps.len() });
+        comps.push(CompSpec { kind: CompKind::ErrHandler { err: 0, default: false }, inputs: eh_inputs, fallible: None, is_async: false, route: None, fw: vec![] });
+        let obs_inputs = match next() % 3 {
+            0 => vec![(4, Mode::Ref)],
+            1 => vec![(4, Mode::Ref), (0, Mode::Ref)],
+            _ => vec![(2, Mode::Ref)],
+        };
+        bp.push(Reg::Comp { idx: comps.len() });
+        comps.push(CompSpec { kind: CompKind::Observer, inputs: obs_inputs, fallible: None, is_async: false, route: None, fw: vec![] });
+    }
+    let n_mw = 3 + next() % 5;
+    let mut inputs_for = |next: &mut dyn FnMut() -> usize| {
+        let mut v = vec![];
+        for t in 0..3usize {
+            match next() % 4 {
+                0 => {}
+                1 | 2 => v.push((t, Mode::Ref)),
+                _ => v.push((t, Mode::Move)),
+            }
+        }
+        if next() % 4 == 0 {
+            v.push((3, if next() % 2 == 0 { Mode::Move } else { Mode::Ref }));
+        }
+        if next() % 2 == 0 {
+            v.push((4, Mode::Ref));
+        }
+        // the value under stress is (almost) always there
+        if !v.iter().any(|(t, _)| *t == 0) && next() % 4 != 0 {
+            v.push((0, if next() % 2 == 0 { Mode::Move } else { Mode::Ref }));
+        }
+        v
+    };
+    for _ in 0..n_mw {
+        let kind = match next() % 7 {
+            0 | 1 | 2 => CompKind::Pre,
+            3 | 4 | 5 => CompKind::Post,
+            _ => CompKind::Wrap,
+        };
+        let is_async = kind == CompKind::Wrap || next() % 3 == 0;
+        let inputs = inputs_for(&mut next);
+        let fallible = if with_errors && next() % 3 == 0 { Some(0) } else { None };
+        bp.push(Reg::Comp { idx: comps.len() });
+        comps.push(CompSpec { kind, inputs, fallible, is_async, route: None, fw: vec![] });
+    }
+    let n_h = 1 + next() % 2;
+    for h in 0..n_h {
+        let inputs = inputs_for(&mut next);
+        let fallible = if with_errors && next() % 2 == 0 { Some(0) } else { None };
+        bp.push(Reg::Comp { idx: comps.len() });
+        comps.push(CompSpec {
+            kind: CompKind::Handler,
+            inputs,
+            fallible,
+            is_async: next() % 2 == 0,
+            route: Some(RouteSpec { methods: vec!["GET".into()], path: format!("/h{h}"), path_param_fields: vec![], bulk: false }),
+            fw: vec![],
+        });
+        // sometimes more middlewares between the routes
+        if h + 1 < n_h && next() % 2 == 0 {
+            let kind = if next() % 2 == 0 { CompKind::Pre } else { CompKind::Post };
+            let inputs = inputs_for(&mut next);
+            bp.push(Reg::Comp { idx: comps.len() });
+            comps.push(CompSpec { kind, inputs, fallible: None, is_async: false, route: None, fw: vec![] });
+        }
+    }
+    AppSpec { types, n_errs: if with_errors { 1 } else { 0 }, comps, bp, note: "abiding (stage stress)".into() }
 }
